@@ -158,7 +158,7 @@ class Run:
         self.cov["transitions"] = self.cov.get("transitions", 0) + res["generated"]
         return res
 
-    def apalache_inductive(self, module, inv="IndInv", init="Init", indinit="IndInit", timeout=600):
+    def apalache_inductive(self, module, inv="IndInv", init="Init", indinit="IndInit", timeout=240):
         """Unbounded-length safety of a small typed specification: apalache-mc discharges Init => inv (length 0) and
         inv /\\ Next => inv' (length 1 from indinit). A design-level result like tlc_mc: "Error" means the specification
         is refuted (Undecided, never a violation of the code); a missing tool or a timeout is recorded as skipped."""
@@ -192,7 +192,7 @@ class Run:
         shutil.rmtree(d, ignore_errors=True)
         return rec
 
-    def tlaps_proof(self, module, timeout=600):
+    def tlaps_proof(self, module, timeout=240):
         """Machine-checked proof (tlapm) of a theorem of a small specification with unbounded parameters. Supplementary:
         the result is recorded in the evidence and never decides (back-end provers can time out under load)."""
         exe = shutil.which("tlapm")
